@@ -42,6 +42,7 @@ MANIFEST = {
     'note': 'wrap and ComplexS.rotate_pairtable_loc are TRANSLATED from the source on every run (Gen/PyExprs.lean) and proved equal to the '
             'model\'s wrap / rotLoc (py_wrap_eq_model, py_rotate_pairtable_loc_eq); '
             'trusted base as in DESIGN.md section 3.',
+    'source_derived': 'The object methods rotate / rotate_pt / the turns setter are transcribed from the working tree too (Gen/PyComplexS.lean): PyObj.Rot.view_rotate_of_strands (rotate() of an object with a strand is exactly rotationsFrom over the number of strands), exec_rotate_pt, pySetTurns_spec.',
     'technique': 'Lean 4 proof: cyclic shift of a non-crossing involution + uniqueness of matchings; correspondence check',
 }
 
